@@ -77,7 +77,7 @@ impl F {
     /// before their body, list elements left to right).
     pub fn names_in_text_order(&self) -> Vec<String> {
         fn go(f: &F, out: &mut Vec<String>) {
-            let mut push = |n: &String, out: &mut Vec<String>| {
+            let push = |n: &String, out: &mut Vec<String>| {
                 if !out.contains(n) {
                     out.push(n.clone());
                 }
